@@ -7,6 +7,10 @@ ALL = ["C%02d" % i for i in range(1, 21)]
 CODEC_NOTE = "Trusted: the reflection bridge (identity-checked on every case), the schema universe and alphabets, the reference codecs, the Go toolchain. Schemas enter as the generator's intermediate JSON (the Java parser is absent). Small-scope bounds: depth <= 2 (3 on spines), <= 5 entries, strings <= 2 chars over the metacharacter set + tokens."
 WIRE_NOTE = "Trusted: mc/wire (net/http serialisation + server-side parsing, no sockets), the reflection bridge and call/reply machinery, the resource universe. Resources enter as the generator's intermediate JSON. Association resources are not in the grammar (the generator does not support them)."
 CHECKS = {
+ "C09": dict(engine="enumx", category="model_checking", design="§3 C09",
+   technique="exhaustive permutation enumeration at the seams where ordering enters (keyWriter call order, parameter order, key insertion order) on the real v2 writers / key sets; Equal-values-same-bytes over enumerated pools; repetition over fresh Go maps and processes as a labelled supplement",
+   text="All five v2 writers x 4 key sets x every permutation of keyWriter call order for up to 5 (thorough 6) keys, flat and nested, with and without an excluded key; every parameter order through BuildQueryParams; every insertion order into string, int64, bytes and hash-colliding key sets: output must be byte-identical across orders, with keys / parameters / ids in ascending byte order. Equal values (copies and every map-insertion-order rebuild of every reduced-alphabet value of the map-bearing wrappers) must encode identically in all 5 formats, also after unrelated encodes. Supplementary: 64 re-encodings on freshly built Go maps and an encoding digest compared across 16 processes.",
+   note=CODEC_NOTE + " Go's map iteration order cannot be controlled; the layers above the seam are covered by repetition only."),
  "C17": dict(engine="sched", category="model_checking", design="§3 C17",
    technique="stateless DFS over all schedules of real goroutines under a cooperative scheduler (all interleavings for 2 threads, preemption-bounded for 3) with an isolation-equivalence oracle; plus a free-running pass of the same bodies under the Go race detector as a supplementary detector",
    text="(a) One server handler and one generated client shared by 2 (all interleavings) or 3 (preemption bound 2, thorough 3) concurrent requests drawn from 11 mixed requests (get, create, update, delete, finder, entity action, batch_get, an ErrorResponse object shared by all requests, a status override, a key with reserved characters): every request's observations - routing facts seen by the filter, resource arguments, wire status / headers / body, client result - must equal its observations in isolation, and the shared error object must stay untouched; scheduling points are the harness-owned callbacks (round-trip entry/exit, PreRequest, resource entry/exit, PostRequest). (b) 2-3 concurrent D2 resolutions plus the cluster's updater thread on one client with the lazy map's sync operations shimmed and RNG draws as points. (c) Supplementary: the same bodies free-running with -race at GOMAXPROCS 1/2/16; any report is a violation.",
